@@ -48,6 +48,21 @@ var c24BenignFuncs = map[string][2]string{
 	"(*pow.Service).CreateRecordSponsorTx": {"math/rand.Uint64", "record-sponsor nonce attribute chosen freely by the block producer"},
 }
 
+// functions whose map-ordered slice is consumed by something that does not
+// depend on the order (function name -> reason); see c24maporder.go
+var c24MapOrderAllowed = map[string]string{
+	"(*dpos/state.State).createRealWithdrawTransaction":                  "entries of a locally created votes real-withdraw transaction for the node's own pool; VotesRealWithdrawTransaction.SpecialContextCheck matches every entry by hash through a map, any order is valid",
+	"(*dpos/state.State).createDposV2ClaimRewardRealWithdrawTransaction": "entries of a locally created reward real-withdraw transaction; validated entry by entry through a map lookup, any order is valid",
+	"(*cr/state.Committee).createRealWithdrawTransaction":                "entries of a locally created CR real-withdraw transaction; validated entry by entry through a map lookup, any order is valid",
+	"(*dpos/manager.ConsensusBlockCache).Reset":                          "bookkeeping list of the local cache of candidate blocks, not a consensus result",
+	"(*dpos/manager.ProposalDispatcher).AppendConfirm":                   "votes of a locally assembled confirm; a confirm is validated as a set of distinct arbiter votes (C25), their order is free",
+	"(*dpos/state.Arbiters).IncreaseChainHeight":                         "peer lists handed to the network layer (which arbiters to connect to)",
+	"(*dpos/state.Arbiters).forceChange":                                 "peer lists handed to the network layer (which arbiters to connect to)",
+	"(*dpos/state.Arbiters).resetNextArbiterByCRC$5":                     "a.nextArbitrators is sorted by node public key in UpdateNextArbitrators (sort.Slice after the producers are appended) before any consumer reads it",
+	"(*mempool.TxPool).BroadcastSmallCrossChainTransactions":             "transactions re-announced to peers (network event)",
+	"(*mempool.TxPool).ResendOutdatedTransactions":                       "transactions re-announced to peers (network event)",
+}
+
 // anchors that must exist (fail closed otherwise) and must be sources.
 var c24Anchors = []string{
 	"(*dpos/state.Arbiters).getCandidateIndexAtRandom",
@@ -107,6 +122,7 @@ type Facts struct {
 	Barrier    []int                  `json:"barrier,omitempty"` // nodes whose out-edges are cut for the clock rule
 	RandErr    []randErrSite          `json:"rand_err,omitempty"`
 	FloatSums  []floatSum             `json:"float_sums,omitempty"`
+	MapOrder   []mapOrderSite         `json:"map_order,omitempty"`
 	Extra      map[string]interface{} `json:"extra,omitempty"`
 }
 
@@ -233,7 +249,8 @@ func runC24(repo, coq, js string) {
 	sort.Ints(bad)
 
 	fsums := floatMapSums(p, g, append([]int{}, sources...))
-	f := &Facts{Property: "C24", FloatSums: fsums, Repo: repo, Names: g.Names, Pos: g.Pos, Pkg: g.Pkg, Succ: g.Succ, Sites: g.sites(),
+	msites := mapOrderSites(p, g, append([]int{}, sources...), c24MapOrderAllowed)
+	f := &Facts{Property: "C24", FloatSums: fsums, MapOrder: msites, Repo: repo, Names: g.Names, Pos: g.Pos, Pkg: g.Pkg, Succ: g.Succ, Sites: g.sites(),
 		Sources: sources, Bad: bad, Allowed: a2, AllowedWhy: w2, Anchors: anchors,
 		Extra: map[string]interface{}{"consensus_packages": c24Consensus, "benign_packages": c24BenignPkgs, "benign_functions": c24BenignFuncs,
 			"source_packages": srcPkgs}}
